@@ -210,22 +210,61 @@ Definition clean_lines (base this other : list line) (rs : list iregion) : list 
 Definition no_sentinel (ls : list line) : bool := forallb (fun l => negb (prefixb START l)) ls.
 Definition guard (base this other : list line) : bool := no_sentinel (base ++ this ++ other).
 
+(* ---- where the file lives (renames / moves between the three trees) ---- *)
+(* BASE has the file at src/f; a tree may have moved it to dst/ and/or renamed it to g *)
+Record place := { in_dst : bool; renamed : bool }.
+Definition path_of (p : place) : bytes :=
+  (if in_dst p then b_ "dst/" else b_ "src/") ++ (if renamed p then b_ "g" else b_ "f").
+
+(* Merge3Merger._three_way(base, other, this) followed by picking the winner's value:
+   base == other -> this;  this == other -> this;  otherwise (this == base) -> other.
+   (with two possible values per comparator there is no "conflict" outcome) *)
+Definition three_way_pick (b o t : bool) : bool :=
+  if Bool.eqb b o then t else if Bool.eqb t o then t else o.
+
+(* Merge3Merger._merge_names: parent directory and name are resolved separately *)
+Definition final_place (pb po pt : place) : place :=
+  {| in_dst := three_way_pick (in_dst pb) (in_dst po) (in_dst pt);
+     renamed := three_way_pick (renamed pb) (renamed po) (renamed pt) |}.
+
+(* Merger.make_merger: kwargs["cherrypick"] = not base_is_ancestor or not base_is_other_ancestor
+   (the flag merge3 is run with; the harness computes the region list with it) *)
+Definition cherrypick_flag (base_is_ancestor base_is_other_ancestor : bool) : bool :=
+  negb base_is_ancestor || negb base_is_other_ancestor.
+
+(* the tree state together with the path everything hangs on: text_merge dumps the helpers under
+   tt.final_parent / tt.final_name, cook_conflicts records the conflict at the final path, so the
+   file, its helpers (<path>.BASE ...) and the conflict record all sit at [p_at] *)
+Record placed := { p_wt : wt; p_at : place }.
+
+Definition merge_placed (o : opts) (pb po pt : place) (base this other : list line) (rs : list iregion)
+  : option placed :=
+  match merge_file o base this other rs (wt0 this) with
+  | Some w => Some {| p_wt := w; p_at := final_place pb po pt |}
+  | None => None                                     (* the transform is never applied *)
+  end.
+
 (* ---- observations ---- *)
 Definition obs_wt (w : wt) : obs :=
   OL [oopt OB (f_main w); oopt OB (f_base w); oopt OB (f_this w); oopt OB (f_other w); oopt OB (f_alike w);
       obool (conflicted w)].
+(* path of the file; file, <path>.BASE/.THIS/.OTHER, <path>.BASE.orig; the conflict record; the path
+   of the recorded conflict; helper-like files anywhere else in the tree (never any) *)
+Definition obs_placed (w : wt) (p : place) : obs :=
+  OL [OB (path_of p); obs_wt w; (if conflicted w then OB (path_of p) else ON); OL []].
 
 (* merge; the user removes helpers / adds a look-alike; resolve *)
-Definition run_case (o : opts) (base this other : list line) (rs : list iregion)
+Definition run_case (o : opts) (pb po pt : place) (base this other : list line) (rs : list iregion)
            (rm_base rm_this rm_other : bool) (alike : option bytes) (act : action) : obs :=
-  match merge_file o base this other rs (wt0 this) with
-  | None => OL [OE "CantReprocessAndShowBase"; obs_wt (wt0 this)]
-  | Some w =>
+  match merge_placed o pb po pt base this other rs with
+  | None => OL [OE "CantReprocessAndShowBase"; obs_placed (wt0 this) pt]
+  | Some pl =>
+      let w := p_wt pl in let p := p_at pl in
       let w1 := user_edit rm_base rm_this rm_other alike w in
-      OL [obs_wt w;
+      OL [obs_placed w p;
           match resolve act w1 with
-          | Some w' => obs_wt w'
-          | None => OL [OE "MalformedTransform"; obs_wt w1]
+          | Some w' => obs_placed w' p
+          | None => OL [OE "MalformedTransform"; obs_placed w1 p]
           end]
   end.
 
